@@ -28,7 +28,7 @@ Base == [conns |-> <<>>, streams |-> <<>>, spans |-> <<>>, peers |-> {}, protos 
          eps |-> {"n0"}, epip |-> [e \in {"n0"} |-> FALSE], epb |-> [e \in {"n0"} |-> {}], cap |-> NoBuckets,
          allownet |-> {}, allowpeer |-> {}, lim |-> [x \in {"conn", "stream"} |-> Open], deflim |-> Open,
          sizes |-> {1}, prios |-> {255}, dirs |-> {"in"}, fds |-> {FALSE}, views |-> {}, kinds |-> AllKinds,
-         threads |-> <<"t1">>, faithfulgc |-> FALSE, preload |-> <<>>]
+         threads |-> <<"t1">>, preload |-> <<>>]
 
 \* ---- memory / spans / priorities -------------------------------------------------------------
 \* Thr(4,127)=2 Thr(3,127)=1 Thr(2,127)=1: a reservation can be refused by its own scope, by the peer,
@@ -112,10 +112,15 @@ FamStreamMem == [Base EXCEPT
           ("svc:x.peer" :> LR(1, 9, 9, 9, 9, 9, 9, 9)) @@ ("conn" :> Open) @@ ("stream" :> LR(2, 9, 9, 9, 9, 9, 9, 9)),
   !.kinds = {"openstream", "setprotocol", "setservice", "reserve", "release", "done", "gc"}]
 
-\* ---- the three suspected defects (DESIGN 9.4, 9.5, 9.6): expected-violation instances ------------
+\* ---- regression instance for DESIGN 9.4 (fixed by 8b34800): GC at any moment while View scopes hold
+\* reservations and spans; every invariant must hold
 FamGcMem == [Base EXCEPT
-  !.peers = {"p1"}, !.views = {"sys", "peer:p1"}, !.faithfulgc = TRUE,
-  !.kinds = {"reserve", "release", "gc"}]
+  !.spans = <<"sp1">>, !.peers = {"p1"}, !.views = {"sys", "peer:p1"},
+  !.lim = ("sys" :> LR(3, 9, 9, 9, 9, 9, 9, 9)) @@ ("peer:p1" :> LR(2, 9, 9, 9, 9, 9, 9, 9)) @@
+          ("conn" :> Open) @@ ("stream" :> Open),
+  !.sizes = {1, 2},
+  !.kinds = {"reserve", "release", "beginspan", "done", "gc"}]
+\* ---- the two defects still open (DESIGN 9.5, 9.6): expected-violation instances --------------------
 AlEps == {"b1", "n0"}
 FamAlSub == [Base EXCEPT
   !.conns = <<"c1", "c2", "c3">>, !.peers = {"p1"},
@@ -167,7 +172,7 @@ MCEps == Cfg.eps          MCEpIP == Cfg.epip          MCEpBuckets == Cfg.epb
 MCCap == Cfg.cap          MCAllowNet == Cfg.allownet  MCAllowPeer == Cfg.allowpeer
 MCSizes == Cfg.sizes      MCPrios == Cfg.prios        MCDirs == Cfg.dirs
 MCFds == Cfg.fds          MCViews == Cfg.views        MCKinds == Cfg.kinds
-MCThreads == Cfg.threads  MCFaithfulGC == Cfg.faithfulgc  MCPreload == Cfg.preload
+MCThreads == Cfg.threads  MCPreload == Cfg.preload
 MCSequential == Len(Cfg.threads) = 1
 \* every named scope of the instance has a limit: the family's own entry or the default; the per-peer
 \* sub-scopes of a protocol / service share one limit ("proto:a.peer"), as in the Limiter interface
